@@ -164,11 +164,11 @@ def interp_1d_conservative(phi, theta, target_theta_bins):
 
     # flip target_theta_bins if needed (only needed for the conservative method,
     # np.interp handles this by itself)
-    target_diff = np.diff(target_theta_bins)
-    if all(target_diff < 0):
+    # (compare neighbours directly: differences of unsigned integers wrap around and are never negative)
+    if np.all(target_theta_bins[1:] < target_theta_bins[:-1]):
         flip_switch = True
         target_theta_bins = target_theta_bins[::-1]
-    elif all(target_diff > 0):
+    elif np.all(target_theta_bins[1:] > target_theta_bins[:-1]):
         flip_switch = False
     else:
         raise ValueError("Target values are not monotonic")
